@@ -300,6 +300,15 @@ Fixpoint stays_below (depth : nat) (l : list str) : bool :=
               else stays_below (S depth) r
   end.
 
+(** Following segments from a directory given as the stack of its components (innermost first):
+    a name goes down, '..' goes up; [None] = tried to go above the top of the stack. *)
+Fixpoint follow (stack : list str) (l : list str) : option (list str) :=
+  match l with
+  | [] => Some stack
+  | c :: r => if is_dotdot c then match stack with [] => None | _ :: s => follow s r end
+              else follow (c :: stack) r
+  end.
+
 (** ---------------------------------------------------------------- literals for examples *)
 From Coq Require Import String Ascii.
 Definition s2l (s : string) : str := map N_of_ascii (list_ascii_of_string s).
